@@ -10,18 +10,22 @@ theorem allChecked_fields {cfg : Cfg} (h : cfg.allChecked = true) :
     cfg.closeChecks = true ∧ cfg.procCheck = true ∧ cfg.deadlineChecks = true ∧ cfg.didResumeDetaches = true ∧
     cfg.scheduleBumps = true ∧ cfg.canceledGuard = true ∧ cfg.sleepRounds = true := by
   simp [Cfg.allChecked] at h
-  obtain ⟨⟨⟨⟨⟨⟨⟨⟨⟨⟨⟨⟨⟨⟨⟨a, b⟩, c⟩, d⟩, e⟩, f⟩, g⟩, i⟩, j⟩, k⟩, l⟩, _⟩, _⟩, _⟩, _⟩, _⟩ := h
+  obtain ⟨⟨⟨⟨⟨⟨⟨⟨⟨⟨⟨⟨⟨⟨⟨⟨a, b⟩, c⟩, d⟩, e⟩, f⟩, g⟩, i⟩, j⟩, k⟩, l⟩, _⟩, _⟩, _⟩, _⟩, _⟩, _⟩ := h
   exact ⟨a, b, c, d, e, f, g, i, j, k, l⟩
 
 theorem allChecked_hasReader {cfg : Cfg} (h : cfg.allChecked = true) : cfg.hasReaderChecks = true := by
   simp [Cfg.allChecked] at h
-  exact h.1.1.1.1.2
+  exact h.1.1.1.1.1.2
 
 theorem allChecked_didResumeFirst {cfg : Cfg} (h : cfg.allChecked = true) : cfg.didResumeFirst = true := by
   simp [Cfg.allChecked] at h
-  exact h.1.1.2
+  exact h.1.1.1.2
 
 theorem allChecked_procErrCheck {cfg : Cfg} (h : cfg.allChecked = true) : cfg.procErrCheck = true := by
+  simp [Cfg.allChecked] at h
+  exact h.1.1.2
+
+theorem allChecked_threadCheck {cfg : Cfg} (h : cfg.allChecked = true) : cfg.threadCheck = true := by
   simp [Cfg.allChecked] at h
   exact h.1.2
 
@@ -294,6 +298,21 @@ theorem step_inv (cfg : Cfg) (hc : cfg.allChecked = true) {w : World} (h : Inv w
         · split <;> exact h1
         · exact h1
   | procFlag k x => exact h.frame rfl rfl rfl (fun _ => Nat.le_refl _) (Nat.le_refl _)
+  | thrWait f k => exact h.frame rfl rfl rfl (fun _ => Nat.le_refl _) (Nat.le_refl _)
+  | thrDone k v e =>
+    have htc := allChecked_threadCheck hc
+    simp only [step, thrDone]
+    split
+    · exact h
+    · rename_i f g hfg
+      have h1 : Inv { w with thr := set w.thr k none } := h.frame rfl rfl rfl (fun _ => Nat.le_refl _) (Nat.le_refl _)
+      rw [htc]
+      by_cases hd : (!(w.fibers f).dead && (!true || live w f g)) = true
+      · rw [if_pos hd]
+        have hl : g = (w.fibers f).schedId := by
+          simp [live] at hd; exact hd.2.symm
+        exact schedule_inv cfg hb h1 _ _ _ _ _ _ hl (Nat.le_refl _) (noSleep (by intro s d; simp))
+      · rw [if_neg hd]; exact h1
   | childEnter f =>
     refine h.frame rfl rfl rfl ?_ (Nat.le_refl _)
     intro g
